@@ -216,7 +216,20 @@ impl XmlConverter {
                     version = Some(Self::get_str_val(val)?);
                 }
                 if name.as_ref() == "encoding" {
-                    encoding = Some(Self::get_str_val(val)?);
+                    let name = Self::get_str_val(val)?;
+                    // The writer copies the name into the declaration as it
+                    // is, a quote in it would end the attribute.
+                    let mut chars = name.chars();
+                    let well_formed = chars.next().is_some_and(|c| c.is_ascii_alphabetic())
+                        && chars.all(|c| c.is_ascii_alphanumeric() || matches!(c, '.' | '_' | '-'));
+                    if !well_formed {
+                        return Err(BuildError::new(
+                            format!("{:?} is not the name of an encoding", name),
+                            ErrorType::TypeFail,
+                        )
+                        .to_boxed());
+                    }
+                    encoding = Some(name);
                 }
                 if name.as_ref() == "standalone" {
                     standalone = match val.as_ref() {
